@@ -5,6 +5,7 @@
 mod common;
 mod support;
 mod gen_proxy;
+mod gen_cg;
 
 fn main() {
     std::panic::set_hook(Box::new(|_| {}));
@@ -13,6 +14,14 @@ fn main() {
     let mut out = vec![];
     match scenario.as_str() {
         "proxy" => gen_proxy::run_all(&mut out),
+        "cg" => {
+            // stage A's observations (what the generated code declares; heck on the name list)
+            for f in ["decl.txt", "case.txt"] {
+                let p = format!("{}/cg/{}", env!("CARGO_MANIFEST_DIR"), f);
+                out.extend(std::fs::read_to_string(&p).unwrap_or_default().lines().map(|l| l.to_string()));
+            }
+            gen_cg::run_all(&mut out)
+        }
         other => {
             eprintln!("unknown scenario {other}");
             std::process::exit(2);
